@@ -462,6 +462,11 @@ func runC05(r *Run) {
 		mk("builtin+user-reversed", append([]interface{}{"builtin"}, rev...)...),
 		mk("shadowing", "builtin", userFn{"len", []*T{tv("A")}, tnum(), false}, userFn{"+", []*T{tbool(), tbool()}, tbool(), false},
 			userFn{"abs", []*T{tnum()}, tstr(), false}, userFn{"get", []*T{tv("A"), tv("A")}, tv("A"), false}),
+		// monomorphic overloads over several composite parameters next to polymorphic ones of the same name and arity
+		mk("mono-composite", "builtin", userFn{"total", []*T{tlist(tnum()), tlist(tnum())}, tnum(), false}, userFn{"total", []*T{tv("A"), tv("A")}, tstr(), false},
+			userFn{"zip", []*T{tmap(tstr(), tnum()), tmap(tstr(), tnum()), tlist(tnum())}, tbool(), false}, userFn{"same", []*T{tmaybe(tnum()), tmaybe(tnum())}, tnum(), false},
+			userFn{"same", []*T{tv("A"), tv("B")}, tbool(), false}, userFn{"objs", []*T{pq, pq}, tnum(), false}),
+		mk("poly-then-mono-composite", "builtin", userFn{"total", []*T{tv("A"), tv("A")}, tstr(), false}, userFn{"total", []*T{tlist(tnum()), tlist(tnum())}, tnum(), false}),
 	}
 	vars := append([]envVar{}, stdVars...)
 	vars = append(vars, envVar{"fv", &T{K: "fun", Name: "fv", Sub: []*T{tnum(), tnum()}}}, envVar{"gv", &T{K: "fun", Name: "gv", Sub: []*T{tv("A"), tlist(tv("A"))}}},
@@ -498,7 +503,7 @@ func runC05(r *Run) {
 	}
 	for i := 0; i < n; i++ {
 		g := &progGen{r: r, vars: vars, fns: stdFns}
-		hi := r.Rng.Intn(len(hists))
+		hi := r.Rng.Intn(5)
 		g.useFns = hi >= 1 && hi <= 3
 		if r.Rng.Intn(2) == 0 {
 			g.poison = 1 + r.Rng.Intn(2)
@@ -509,12 +514,24 @@ func runC05(r *Run) {
 		}
 		c05One(r, tb, hists[hi], built[hi].te, built[hi].re, vars, src)
 	}
+	// calls whose arguments are the SAME variable (one type node used twice) or equal types from different nodes
+	for hi := 5; hi <= 6; hi++ {
+		for _, c := range []string{`total(xs, xs)`, `total(xs, es)`, `total(es, xs)`, `total([1], xs)`, `total(xs, [1, 2])`, `total(ss, ss)`, `total(xs, ss)`, `total(nest.in.l, nest.in.l)`, `total(nest.in.l, xs)`,
+			`total(x, x)`, `total(o, o)`, `zip(m, m, xs)`, `zip(m, em, es)`, `zip(em, em, xs)`, `zip(m, m, ss)`, `same(mb, mb)`, `same(mb, mz)`, `same(mb, x)`, `same(lm[0], lm[0])`, `objs(o, o)`, `objs(o, o2)`,
+			`objs(o2, o2)`, `objs(os[0], os[0])`, `total(get([xs], 0, xs), get([xs], 0, xs))`, `total(if(b, xs, xs), xs)`} {
+			c05One(r, tb, hists[hi], built[hi].te, built[hi].re, vars, c)
+			r.Count("same-node argument programs")
+		}
+	}
 	for i := 0; i < n/5; i++ {
 		g := &progGen{r: r, vars: stdVars, fns: stdFns}
-		hi := r.Rng.Intn(len(hists))
+		hi := r.Rng.Intn(5)
 		g.useFns = hi >= 1 && hi <= 3
 		src := g.sharedVarProg(r.Rng.Intn(4) != 0)
-		r.Count("shared-variable programs")
+		if i%2 == 1 {
+			src = g.permObjProg(r.Rng.Intn(3) != 0)
+		}
+		r.Count("shared-variable / permuted-object programs")
 		c05One(r, tb, hists[hi], built[hi].te, built[hi].re, vars, src)
 	}
 }
